@@ -191,6 +191,8 @@ static void byteCopyCheck(Tree& tree){
             typename Tree::CellGroupClass viewD(cp[0].first, cp[0].second, cp[1].first, cp[1].second, cp[2].first, cp[2].second, false); viewD.initMemoryBlockHeader();
             ++groups;
             for(auto* view : {&viewA, &viewB, &viewC, &viewD}){
+                // the view stands on exactly the buffers it was given, each with its own size
+                { const auto vs = view->getDataPtrsAndSizes(); for(int k = 0 ; k < 3 ; ++k){ ++values; if(vs[k].first != cp[k].first || vs[k].second != cp[k].second) ++bad; } }
                 ++values; if(view->getNbCells() != g.getNbCells() || view->getStartingSpacialIndex() != g.getStartingSpacialIndex() || view->getEndingSpacialIndex() != g.getEndingSpacialIndex()) ++bad;
                 for(long c = 0 ; c < g.getNbCells() ; ++c){
                     ++values; if(view->getCellSpacialIndex(c) != g.getCellSpacialIndex(c)) ++bad;
@@ -218,6 +220,7 @@ static void byteCopyCheck(Tree& tree){
         typename Tree::LeafGroupClass viewD(cp[0].first, cp[0].second, cp[1].first, cp[1].second, false); viewD.initMemoryBlockHeader();
         ++groups;
         for(auto* view : {&viewA, &viewB, &viewC, &viewD}){
+            { const auto vs = view->getDataPtrsAndSizes(); for(int k = 0 ; k < 2 ; ++k){ ++values; if(vs[k].first != cp[k].first || vs[k].second != cp[k].second) ++bad; } }
             ++values; if(view->getNbLeaves() != g.getNbLeaves() || view->getNbParticles() != g.getNbParticles()) ++bad;
             for(long lf = 0 ; lf < g.getNbLeaves() ; ++lf){
                 ++values; if(view->getLeafSpacialIndex(lf) != g.getLeafSpacialIndex(lf) || view->getNbParticlesInLeaf(lf) != g.getNbParticlesInLeaf(lf) || view->getLeafBoxCoord(lf) != g.getLeafBoxCoord(lf)) ++bad;
@@ -333,10 +336,18 @@ int main(){
                     for(long k = 0 ; k < NbData ; ++k) std::cout << " " << toHexAny(dt[i][k]);
                     std::cout << "\n";
                 }
+                const long BIG = (1L << 60) + 1;      // as in "export rhs": values only the result type can represent
+                auto shiftAll = [&](const long by){
+                    cs.tsm->applyToAllLeavesTarget([&](auto&& leafHeader, const long int*, auto, auto rhsPtrs){
+                        for(long k = 0 ; k < NbRhs ; ++k) for(long p = 0 ; p < leafHeader.nbParticles ; ++p) rhsPtrs[k][p] += by;
+                    });
+                };
+                shiftAll(BIG);
                 auto rt = cs.tsm->getAllParticlesRhsTarget();
+                shiftAll(-BIG);
                 for(long i = 0 ; i < (long)cs.particles.size() ; ++i){
                     std::cout << "XRt " << i;
-                    for(long k = 0 ; k < NbRhs ; ++k) std::cout << " " << rt[i][k];
+                    for(long k = 0 ; k < NbRhs ; ++k) std::cout << " " << (static_cast<long>(rt[i][k]) - BIG);
                     std::cout << "\n";
                 }
             }
@@ -376,10 +387,20 @@ int main(){
             }
         }
         else if(op == "export" && ts[1] == "rhs"){
+            // the results are exported while they hold values only their own type can represent (offset by 2^60 + 1, removed
+            // again in the printed line and in the tree afterwards): an export through another type would round them
+            const long BIG = (1L << 60) + 1;
+            auto shiftAll = [&](const long by){
+                cs.tree->applyToAllLeaves([&](auto&& leafHeader, const long int*, auto, auto rhsPtrs){
+                    for(long k = 0 ; k < NbRhs ; ++k) for(long p = 0 ; p < leafHeader.nbParticles ; ++p) rhsPtrs[k][p] += by;
+                });
+            };
+            shiftAll(BIG);
             auto rhs = cs.tree->getAllParticlesRhs();
+            shiftAll(-BIG);
             for(long i = 0 ; i < cs.tree->getNbParticles() ; ++i){
                 std::cout << "XR " << i;
-                for(long k = 0 ; k < NbRhs ; ++k) std::cout << " " << rhs[i][k];
+                for(long k = 0 ; k < NbRhs ; ++k) std::cout << " " << (static_cast<long>(rhs[i][k]) - BIG);
                 std::cout << "\n";
             }
         }
